@@ -75,6 +75,12 @@ func genPresenceStruct(t *rapid.T, depth int, cfg vh.Cfg) *vh.TSpec {
 		if ft.Kind == vh.KMap && rapid.IntRange(0, 3).Draw(t, "proto") == 0 {
 			opt = "proto"
 		}
+		if k := ft.Under().Kind; (k == vh.KString || k == vh.KNullString) && rapid.IntRange(0, 2).Draw(t, "intern") == 0 {
+			opt = "intern"
+		}
+		if k := ft.Under().Kind; (k == vh.KInt || k == vh.KInt8 || k == vh.KInt64 || (k == vh.KPtr && ft.Under().Elem.Under().Kind.IsSignedInt())) && rapid.IntRange(0, 3).Draw(t, "flat") == 0 {
+			opt = "flat"
+		}
 		f := vh.F(fmt.Sprintf("F%d", i), i+1+rapid.IntRange(0, 1).Draw(t, "gap")*20*(i+1), ft)
 		if opt != "" {
 			f.Plenc += "," + opt
